@@ -6,6 +6,7 @@ CONSTANTS
   AdrLimit = 64
   AdrDelay = 32
   Region = "US915"
+  SecondSmall = TRUE
   MaxDown = 2
 VIEW GView
 INVARIANTS Emit
